@@ -13,7 +13,8 @@ from .c01 import enum_histories, enum_word_removals, symbol_subset
 RULE = ('histories of add / remove / xml_x=None (removals at any position): (a) ALL histories of <=3 ops (quick; <=4 '
         'for alphabets <=4 in thorough) over a deterministic symbol subset of every type, (b) Hypothesis-drawn adaptive '
         'histories, (c) ALL histories "k adds then one removal" over the FULL alphabet of every type (k<=2 quick, '
-        'k<=3 thorough).  Twin B = fresh element of the same class to which the surviving children\'s names are added in '
+        'k<=3 thorough), (d) every permutation with an inversion of every multiset (size<=3 quick, <=4 thorough) that '
+        'has a unique arrangement, followed by one removal at every position.  Twin B = fresh element of the same class to which the surviving children\'s names are added in '
         'their surviving insertion order.  Compared: to_string text, or exception type and missing-children message; '
         'schema-ordered child names; and, for every alphabet symbol (sampled in quick), the accept/reject verdict of '
         'adding it, obtained by replaying on fresh objects.  Non-trivial = >=1 successful removal of a child that '
@@ -185,6 +186,7 @@ def shards(ctx):
         else:
             small.append((t, els))
     jobs += [{'mode': 'add-remove', 'types': part, 'firsts': None} for part in gen.chunk(small, 8)]
+    jobs += [{'mode': 'perm-remove', 'types': part} for part in gen.chunk(te, 16)]
     return jobs
 
 
@@ -209,6 +211,27 @@ def run_shard(ctx, shard, acc):
                 acc.case({'element': els[0], 'ops': ops}, nontrivial(A), len(ops))
                 if f:
                     acc.fail(f, raise_=False)
+        return
+    if shard['mode'] == 'perm-remove':
+        # children supplied OUT of schema order (so that the matcher re-arranges, possibly through its intelligent
+        # path), then one removal: every permutation of every multiset with a unique arrangement
+        from . import c12
+        for t, els in shard['types']:
+            for ms, target in c12.unique_multisets(t, 3 if ctx.quick else 4, cap_words=2000 if ctx.quick else 20000):
+                for p in c12.distinct_perms(ms, cap=6 if ctx.quick else 24):
+                    if c12.inversions(p, target) < 1:
+                        continue
+                    for i in range(len(p)):
+                        ops = [['add', a] for a in p] + [['remove', i]]
+                        A, f = check(els[0], ops, [])
+                        if A.e is None:
+                            break
+                        if mark(A.ops, A.results, t):
+                            A.flags.add('removed-nontrivial')
+                        acc.case({'element': els[0], 'ops': ops}, nontrivial(A), len(ops))
+                        acc.count('perm-remove-histories')
+                        if f:
+                            acc.fail(f, raise_=False)
         return
     if shard['mode'] == 'add-remove':
         for t, els in shard['types']:
